@@ -201,6 +201,8 @@ theorem generate_panic (cfg : Cfg) (d : Dictionary) (o : Options) (h : generate 
   · cases h
   split at h
   · cases h
+  split at h
+  · cases h
   · cases h
 
 /-! ### the sections of a successful run, in full -/
@@ -235,7 +237,8 @@ theorem generate_ok_full {cfg : Cfg} {d : Dictionary} {o : Options} {out : Outpu
           ++ (if !(sortVendors cfg evs0).isEmpty then [Imp.std (bs "errors")] else [])).contains
         ++ (if !(gAttrs cfg d o).isEmpty || !(sortVendors cfg evs0).isEmpty then [Imp.radius] else [])
         ++ (if !(sortVendors cfg evs0).isEmpty then [Imp.rfc2865] else [])
-        ++ (dedupBytes (((gExts o).filter (fun e => !(gExtVals cfg d o e).isEmpty)).map (·.2))).map Imp.dot := by
+        ++ (dedupBytes (((gExts o).filter (fun e => !(gExtVals cfg d o e).isEmpty)).map (·.2))).map Imp.dot ∧
+      (∀ e ∈ gExts o, gExtVals cfg d o e ≠ [] → lexesAsIdent (identifier e.1) = true) := by
   unfold generate at h
   simp only [bind, Except.bind, pure, Except.pure, throw, throwThe, MonadExceptOf.throw] at h
   split at h
@@ -258,9 +261,24 @@ theorem generate_ok_full {cfg : Cfg} {d : Dictionary} {o : Options} {out : Outpu
   · cases h
   split at h
   · cases h
+  split at h
+  · cases h
+  rename_i hext
   simp only [Except.ok.injEq] at h
   subst h
-  exact ⟨seen, r.1, r.2, hca, hcv, hfx, hve, rfl, rfl⟩
+  refine ⟨seen, r.1, r.2, hca, hcv, hfx, hve, rfl, rfl, ?_⟩
+  intro e he hne
+  apply Classical.byContradiction
+  intro hl
+  apply hext
+  refine List.any_eq_true.2 ⟨e, he, ?_⟩
+  have h1 : (gExtVals cfg d o e).isEmpty = false := by
+    cases hv : gExtVals cfg d o e with
+    | nil => exact absurd hv hne
+    | cons _ _ => rfl
+  have h2 : lexesAsIdent (identifier e.1) = false := by simpa using hl
+  simp only [gExtVals, gVals, gAttrs, gExts] at h1
+  simp only [h1, h2, Bool.not_false, Bool.and_self]
 
 theorem mem_gSections {cfg : Cfg} {d : Dictionary} {o : Options} {evs : List EVendor} {s : Origin × List Decl}
     (hs : s ∈ gSections cfg d o evs) :
@@ -348,17 +366,19 @@ structure RunFacts (d : Dictionary) (o : Options) (out : Output) (evs : List EVe
   evAttrsValid : ∀ ev ∈ evs, ∀ a ∈ ev.attrs, invalidAttr Cfg.repaired true a = false ∧ exportedIdent (ident a) = true
     ∧ valsOK a ev.values ∧ valsFit a ev.values
   extVals : ∀ e ∈ gExts o, ((gExtVals Cfg.repaired d o e).map (fun v => identifier v.name)).Nodup
+  /-- the format gate on `-ref` names: an external attribute that has a VALUE has a name that lexes -/
+  extNames : ∀ e ∈ gExts o, gExtVals Cfg.repaired d o e ≠ [] → lexesAsIdent (identifier e.1) = true
 
 theorem runFacts {d : Dictionary} {o : Options} {out : Output} (h : generate Cfg.repaired d o = .ok out) :
     ∃ evs, RunFacts d o out evs := by
-  obtain ⟨seen, evs0, vimps, hca, hcv, hfx, hve, hsec, _⟩ := generate_ok_full h
+  obtain ⟨seen, evs0, vimps, hca, hcv, hfx, hve, hsec, _, hext⟩ := generate_ok_full h
   obtain ⟨c1, c2, c3⟩ := checkAttrs_ok false _ _ _ hca
   obtain ⟨v1, v2⟩ := checkVendors_ok o _ _ _ _ _ hve
   obtain ⟨hr1, _, hvalid⟩ := imp_checkVendors_struct Cfg.repaired o d.vendors _ _ _ hve
   have hfit := checkVendors_fit o _ _ _ _ hve
   have htop := imp_checkAttrs_valid Cfg.repaired false _ _ _ hca
   have memV : ∀ v, v ∈ sortVendors Cfg.repaired evs0 ↔ v ∈ evs0 := fun v => mem_sortStable _ _ _
-  refine ⟨sortVendors Cfg.repaired evs0, ⟨hsec, ?_, ?_, ?_, ?_, ?_, ?_, ?_, ?_, ?_⟩⟩
+  refine ⟨sortVendors Cfg.repaired evs0, ⟨hsec, ?_, ?_, ?_, ?_, ?_, ?_, ?_, ?_, ?_, hext⟩⟩
   · intro a
     rw [gAttrs, mem_sortAttrs]
     exact imp_mem_kept
